@@ -305,13 +305,17 @@ class Conc:
             env[i.res] = float(a) if i.ty.kind == "double" else f32(float(a))
             return
         if op == "fpext":
-            env[i.res] = self.val(env, i.ops[0])
+            v = self.val(env, i.ops[0])
+            env[i.res] = v
             return
         if op == "fptrunc":
             a = self.val(env, i.ops[0])
             if isinstance(a, tuple):
                 fr = a[1]
                 a = fr.numerator / fr.denominator
+            if i.ty.kind == "double" and i.ops[0].ty.kind == "x86_fp80":
+                env[i.res] = a
+                return
             env[i.res] = f32(a) if i.ty.kind == "float" else a
             return
         if op == "fptosi":
